@@ -1596,7 +1596,8 @@ def _as_sym(x):
         return x
     if isinstance(x, Tok) and x.kind == 'PH0' and isinstance(x.val, (int, float)):
         return Sym(Poly.const(x.val))
-    if isinstance(x, (int, float)) and not isinstance(x, bool):
+    from fractions import Fraction
+    if isinstance(x, (int, float, Fraction)) and not isinstance(x, bool):
         return Sym(Poly.const(x))
     return None
 
@@ -2583,3 +2584,90 @@ def dc2(m, run):
     run.ob('DC2.decomposition-on-recorder-shapes', '%s :: %d (knot pattern, decompose_dir) cases' % (fs.key, n), not bad,
            "only the requested directions are split, once per distinct interior knot; patches in u-major parameter order" if not bad else
            'degrees %s, interior knot ranks %s: %s   [%d of %d cases]' % (bad[0][0][0], bad[0][0][1], bad[0][1], len(bad), n), 'geomdl/operations.py:%d in %s' % (fs.node.lineno, fs.key))
+
+
+# ====================================================================================== C08: degree elevation / reduction exactly
+def el2(m, run):
+    """EL2: helpers.degree_elevation interpreted on symbolic control points with exact binomials and exact rational arithmetic: every new
+    point is sum_j C(p,j) C(t,i-j) / C(p+t,i) P_j (Eq. 5.36) for degrees 1..4 and counts 1..3;  helpers.degree_reduction applied to the exact
+    elevation of a symbolic degree-(p-1) polygon gives that polygon back, for p = 2..7 (Eqs. 5.41 / 5.42 on a degree-reducible input)"""
+    import math
+    from fractions import Fraction
+    from .skel import Sym
+    from .poly import Poly
+    binom = Py(lambda sk, node, k, i: Fraction(math.comb(int(k), int(i))) if 0 <= i <= k else Fraction(0), 'binomial_coefficient')
+    ab = dict(STD_ABSTRACTED)
+    ab[('linalg', 'binomial_coefficient')] = binom
+
+    def elevate(P, p, t):
+        out = []
+        for i in range(p + t + 1):
+            row = []
+            for c in range(len(P[0])):
+                acc = Poly()
+                for j in range(max(0, i - t), min(p, i) + 1):
+                    acc = acc + P[j][c] * (Fraction(math.comb(p, j) * math.comb(t, i - j), math.comb(p + t, i)))
+                row.append(acc)
+            out.append(row)
+        return out
+    fe = m.func('helpers.degree_elevation')
+    bad, n = [], 0
+    for p in range(1, 5):
+        for t in range(1, 4):
+            n += 1
+            P = [[Poly.atom('P_%d_%d' % (j, c)) for c in range(2)] for j in range(p + 1)]
+            sk = SK(m, ab)
+            sk.exact = True
+            try:
+                out = sk.call(fe, [p, [[Sym(x) for x in row] for row in P]], {'num': t})
+                want = elevate(P, p, t)
+                why = None
+                if not isinstance(out, list) or len(out) != p + t + 1:
+                    why = '%r points, expected %d' % (len(out) if isinstance(out, list) else out, p + t + 1)
+                else:
+                    for i in range(p + t + 1):
+                        for c in range(2):
+                            s = _as_sym(out[i][c])
+                            if s is None or not s.same(Sym(want[i][c])):
+                                why = 'Q_%d[%d] is %s, Eq. 5.36 gives %r' % (i, c, repr(out[i][c])[:140], want[i][c])
+                                break
+                        if why:
+                            break
+            except Violation as v:
+                why = '%s %s' % (v.msg, v.where())
+            except Unsupported as ex:
+                raise AnalysisError('%s: interpreter met an unsupported construct: %s' % (fe.key, ex))
+            if why:
+                bad.append(((p, t), why))
+    run.ob('EL2.elevation-reduction-exact', '%s :: degree 1..4 x count 1..3' % fe.key, not bad, 'Eq. 5.36 as a polynomial identity in the control points' if not bad else
+           'degree %d elevated %d times: %s   [%d of %d cases]' % (bad[0][0][0], bad[0][0][1], bad[0][1], len(bad), n), 'geomdl/helpers.py:%d in %s' % (fe.node.lineno, fe.key))
+    fr = m.func('helpers.degree_reduction')
+    bad, n = [], 0
+    for p in range(2, 8):
+        n += 1
+        P = [[Poly.atom('P_%d_%d' % (j, c)) for c in range(2)] for j in range(p)]
+        Q = elevate(P, p - 1, 1)
+        sk = SK(m, ab)
+        sk.exact = True
+        try:
+            out = sk.call(fr, [p, [[Sym(x) for x in row] for row in Q]], {})
+            why = None
+            if not isinstance(out, list) or len(out) != p:
+                why = '%r points, expected %d' % (len(out) if isinstance(out, list) else out, p)
+            else:
+                for i in range(p):
+                    for c in range(2):
+                        s = _as_sym(out[i][c])
+                        if s is None or not s.same(Sym(P[i][c])):
+                            why = 'point %d of the reduced polygon is %s, the polygon that was elevated has %r there' % (i, repr(out[i][c])[:160], P[i][c])
+                            break
+                    if why:
+                        break
+        except Violation as v:
+            why = '%s %s' % (v.msg, v.where())
+        except Unsupported as ex:
+            raise AnalysisError('%s: interpreter met an unsupported construct: %s' % (fr.key, ex))
+        if why:
+            bad.append((p, why))
+    run.ob('EL2.elevation-reduction-exact', '%s :: degrees 2..7 on exactly reducible polygons' % fr.key, not bad, 'reduce(elevate(P)) = P as a polynomial identity' if not bad else
+           'degree %d: %s   [%d of %d degrees]' % (bad[0][0], bad[0][1], len(bad), n), 'geomdl/helpers.py:%d in %s' % (fr.node.lineno, fr.key))
